@@ -34,11 +34,25 @@ for cap in (1, 2, 4, 8):
     unit("tab.find.cap%d" % cap,
          "janet_dict_find from EVERY well-formed bucket array: returns the bucket holding an equal key if one exists, otherwise the empty bucket that ends the probe path "
          "(else the first tombstone, else NULL for a full array); every bucket access inside the array; nothing written",
-         "h_dict_find", tier="quick" if cap <= 4 else "thorough",
+         "h_dict_find", tier="quick",
          bound="capacity %d: ALL well-formed bucket arrays (any mix of live, tombstone and empty buckets up to the full array); abstract universe of %d pairwise different keys plus foreign keys (nil, NaN) with an arbitrary hash function; all lookup keys" % (cap, k),
          src=["util.c"], link=["wrap.c"], harness=["tab_find.c"], defines=["-DTAB_CAP=%d" % cap, "-DTAB_K=%d" % k],
          unwind=k + 3, functions=["janet_dict_find"], assumes=[KEYS, WFD], mutants=muts, timeout=300 if cap <= 4 else 600)
 
+
+SM = "i,janet_dict_find::1::i;index,janet_dict_find::1::index;cap,janet_dict_find::cap;first_bucket,janet_dict_find::1::first_bucket"
+unit("tab.find.safety",
+     "janet_dict_find, EVERY capacity >= 1 and any hash / equality: every bucket access of both probe loops lies inside the bucket array, nothing is written, both loops terminate",
+     "h_dict_find_safety", cls="proved", mode="dfcc", enforce=["janet_dict_find/janet_dict_find_c"], src=["util.c"], link=["wrap.c"], harness=["tab_find_safety.c"],
+     object_bits=8, timeout=300,
+     loops={"janet_dict_find": [
+         {"loop_id": "0", "invariants": "index >= 0 && index < cap && i >= index && i <= cap", "assigns": "i, first_bucket", "decreases": "cap - i", "symbol_map": SM},
+         {"loop_id": "1", "invariants": "index >= 0 && index < cap && i >= 0 && i <= index", "assigns": "i, first_bucket", "decreases": "index - i", "symbol_map": SM}]},
+     loop_counts={"janet_dict_find": 2},
+     assumes=["janet_hash / janet_equals: generated bodies returning arbitrary values (no side effects)", "precondition: cap >= 1 (<= 2^26) and buckets valid for cap buckets"],
+     mutants=[mut("upper-probe-runs-past-end", "util.c", "for (i = index; i < cap; i++) {\n        const JanetKV *kv = buckets + i;\n        if (janet_checktype(kv->key, JANET_NIL)) {",
+                  "for (i = index; i <= cap; i++) {\n        const JanetKV *kv = buckets + i;\n        if (janet_checktype(kv->key, JANET_NIL)) {", "pointer_dereference|loop_invariant"),
+              mut("lower-probe-includes-start", "util.c", "for (i = 0; i < index; i++) {", "for (i = 0; i <= cap; i++) {", "pointer_dereference|loop_invariant|loop_decreases")])
 
 # ------------------------------------------------------------------ (B) table.c operations against the finite-map view
 WFT = ("precondition wf_table(t): wf_dict(t->data, t->capacity) - " + WFD[len("precondition wf_dict(buckets, cap): "):] +
@@ -72,49 +86,94 @@ RH_M = [mut("deleted-not-reset", "table.c", "    t->deleted = 0;\n    for (int32
         mut("walks-new-capacity", "table.c", "for (int32_t i = 0; i < oldcapacity; i++) {", "for (int32_t i = 0; i < size; i++) {", "pointer_dereference|preserves the view|count unchanged"),
         mut("value-not-copied", "table.c", "            *newkv = *kv;", "            newkv->key = kv->key;", "preserves the view|wf_dict")]
 
+CAD = ["--sat-solver", "cadical"]
+GROW_SIZE = lambda c: 1 << (2 * c + 2).bit_length()      # janet_tablen(2*c+2)
+PUT_CLAUSE = ("janet_table_put: view' = view[key -> value] (a nil value removes the key, nil and NaN keys are ignored), every other key unchanged, "
+              "count and deleted exact, wf_table re-established (probe paths, load), prototype never touched")
+SIZE_M = mut("rehash-size-too-small", "table.c", "                janet_table_rehash(t, janet_tablen(2 * t->count + 2));", "                janet_table_rehash(t, janet_tablen(t->count));", "re-establishes wf_table|rehash precondition")
+
 for cap in (1, 2, 4, 8):
     tier = "quick" if cap <= 4 else "thorough"
     to = 300 if cap <= 4 else 600
     k = KOF[cap]
     D = ["-DTAB_CAP=%d" % cap, "-DTAB_K=%d" % k, "-DTAB_NEWMAX=%d" % NEWMAX[cap]]
-    uw = max(NEWMAX[cap], k + 1) + 2
-    unit("tab.put.cap%d" % cap,
-         "janet_table_put from EVERY well-formed table: view' = view[key -> value] (a nil value removes the key, nil and NaN keys are ignored), every other key unchanged, "
-         "count and deleted exact, wf_table re-established (probe paths, load), prototype never touched",
-         "h_table_put", tier=tier, timeout=to, bound=tbound(cap), defines=D, unwind=uw, functions=["janet_table_put", "janet_table_remove", "janet_table_find"],
-         replace_calls=["janet_table_rehash:tab_rehash_contract"], assumes=[KEYS, WFT, FINDC, REHC], mutants=PUT_M, **T)
-    unit("tab.remove.cap%d" % cap,
+    uw = max(cap, k + 1) + 2
+    # ---- put, calls that do not rehash
+    unit("tab.put.cap%d.stay" % cap,
+         PUT_CLAUSE + " - every call that does not rehash: key present, nil value, nil / NaN key, or table below the load limit; rehash is shown not to be reached",
+         "h_table_put", tier=tier, timeout=to, bound=tbound(cap), defines=D, unwind=uw, cbmc=CAD, functions=["janet_table_put", "janet_table_remove", "janet_table_find"],
+         replace_calls=["janet_table_rehash:tab_rehash_unreachable"], assumes=[KEYS, WFT, FINDC],
+         mutants=(PUT_M[:1] + PUT_M[2:]) if cap >= 2 else [mut("nan-key-accepted", "table.c", PUT_M[3]["find"], "", "nil or NaN key is ignored|re-establishes wf_table|rehash happens only")], **T)
+    # ---- put, calls that rehash: a new key into a table at the load limit, one unit per count (new capacity is then a constant)
+    for c in range(0, cap // 2 + 1):
+        size = GROW_SIZE(c)
+        kk = c + 2
+        muts = [PUT_M[0], SIZE_M] + ([PUT_M[1]] if c < cap // 2 else [])
+        unit("tab.put.cap%d.grow.c%d" % (cap, c),
+             PUT_CLAUSE + " - a new key with a non-nil value put into a table with %d entries at the load limit: rehashes once to capacity %d and inserts" % (c, size),
+             "h_table_put", tier=tier if size <= 8 else "thorough", timeout=to if size <= 8 else 600,
+             bound="capacity %d, count %d, deleted %d (every such well-formed table); new capacity %d; abstract universe of %d pairwise different keys with an arbitrary hash function; arbitrary value words" % (cap, c, cap // 2 - c, size, kk),
+             defines=["-DTAB_CAP=%d" % cap, "-DTAB_K=%d" % kk, "-DTAB_NEWMAX=%d" % NEWMAX[cap], "-DTAB_PUT_COUNT=%d" % c], unwind=max(size, cap, kk + 1) + 2, cbmc=CAD,
+             functions=["janet_table_put", "janet_table_find"], replace_calls=["janet_table_rehash:tab_rehash_contract"], assumes=[KEYS, WFT, FINDC, REHC], mutants=muts, **T)
+    if cap == 1:
+        # a well-formed table of capacity 1 is empty (load clause): remove / rawget / clear have nothing to act on there
+        # (every mutant is equivalent), the capacity-1 state - the fresh @{} - matters for put and rehash only
+        UNIT = lambda *a, **k: None
+    else:
+        UNIT = unit
+    UNIT("tab.remove.cap%d" % cap,
          "janet_table_remove from EVERY well-formed table: returns the value the key had, view' = view.remove(key), every other key unchanged, count and deleted exact, "
          "wf_table re-established (the tombstone keeps every probe path intact), prototype never touched",
-         "h_table_remove", tier=tier, timeout=to, bound=tbound(cap), defines=D, unwind=uw, functions=["janet_table_remove", "janet_table_find"],
-         assumes=[KEYS, WFT, FINDC], mutants=REM_M if cap >= 2 else REM_M[:0] + [], **T)
-    unit("tab.rawget.cap%d" % cap,
+         "h_table_remove", tier=tier, timeout=to, bound=tbound(cap), defines=D, unwind=uw, cbmc=CAD, functions=["janet_table_remove", "janet_table_find"],
+         assumes=[KEYS, WFT, FINDC], mutants=REM_M, **T)
+    UNIT("tab.rawget.cap%d" % cap,
          "janet_table_rawget from EVERY well-formed table: returns view(key) - the value last put, nil for an absent, removed, nil or NaN key; table unchanged; prototype never consulted",
-         "h_table_rawget", tier=tier, timeout=to, bound=tbound(cap), defines=D, unwind=uw, functions=["janet_table_rawget", "janet_table_find"],
+         "h_table_rawget", tier=tier, timeout=to, bound=tbound(cap), defines=D, unwind=uw, cbmc=CAD, functions=["janet_table_rawget", "janet_table_find"],
          assumes=[KEYS, WFT, FINDC], mutants=RAW_M, **T)
-    unit("tab.clear.cap%d" % cap,
+    UNIT("tab.clear.cap%d" % cap,
          "janet_table_clear from EVERY well-formed table: view' is the empty map, length 0, no tombstones, every bucket EMPTY, block / capacity / prototype kept, wf_table re-established",
-         "h_table_clear", tier=tier, timeout=to, bound=tbound(cap), defines=D, unwind=uw, functions=["janet_table_clear", "janet_memempty"],
+         "h_table_clear", tier=tier, timeout=to, bound=tbound(cap), defines=D, unwind=uw, cbmc=CAD, functions=["janet_table_clear", "janet_memempty"],
          assumes=[KEYS, WFT], mutants=CLR_M, **T)
-    # rehash: load clause dropped, so up to cap live keys
-    kr = min(cap, 5) + 1
-    Dr = ["-DTAB_CAP=%d" % cap, "-DTAB_K=%d" % kr, "-DTAB_NEWMAX=%d" % NEWMAX[cap]]
-    unit("tab.rehash.cap%d" % cap,
-         "janet_table_rehash under its contract, from EVERY table that is well-formed up to the load clause and every new size that is a power of two >= count: new exact block without tombstones, "
-         "old block released, same key/value map, count unchanged, deleted == 0, wf_dict (distinct keys, probe paths) on the new block",
-         "h_table_rehash", tier=tier, timeout=to,
-         bound="old capacity %d (any mix of live / tombstone / empty buckets, up to %d live keys), new size any power of two in [count, %d]; abstract universe of %d keys with an arbitrary hash function; both allocation flavours (heap, scratch)" % (cap, min(cap, kr), NEWMAX[cap], kr),
-         defines=Dr, unwind=max(NEWMAX[cap], kr + 1) + 2, functions=["janet_table_rehash", "janet_table_find", "janet_memalloc_empty_local"],
-         assumes=[KEYS, WFT.replace("; 2*(count+deleted) <= capacity", " (load clause not required)"), FINDC, SMALLOC], mutants=RH_M if cap >= 2 else RH_M[:1], **T)
+    # ---- rehash under its contract: one unit for the new sizes <= 4, one per larger size
+    kr = max(2, cap // 2 + 1)
+    groups = [(1, min(4, NEWMAX[cap]))] + [(s, s) for s in (8, 16) if s <= NEWMAX[cap]]
+    for lo, hi in groups:
+        nm = "to%d" % hi if lo == hi else "to%d-%d" % (lo, hi)
+        if cap == 1:
+            muts = [RH_M[1]]
+        else:
+            muts = RH_M
+        unit("tab.rehash.cap%d.%s" % (cap, nm),
+             "janet_table_rehash under its contract, from EVERY well-formed table and every new size that is a power of two >= count: new exact heap block without tombstones, "
+             "same key/value map, count unchanged, deleted == 0, wf_dict (distinct keys, probe paths) on the new block, old block freed validly, prototype untouched",
+             "h_table_rehash", tier=tier if hi <= 8 else "thorough", timeout=to if hi <= 8 else 600,
+             bound="old capacity %d (every well-formed table), new size the powers of two in [max(count,%d), %d]; abstract universe of %d keys with an arbitrary hash function; both allocation flavours (heap, scratch)" % (cap, lo, hi, kr),
+             defines=["-DTAB_CAP=%d" % cap, "-DTAB_K=%d" % kr, "-DTAB_NEWMAX=%d" % NEWMAX[cap], "-DTAB_SIZE_MIN=%d" % lo, "-DTAB_SIZE_MAX=%d" % hi],
+             unwind=max(hi, cap, kr + 1) + 2, cbmc=CAD, functions=["janet_table_rehash", "janet_table_find", "janet_memalloc_empty_local"],
+             assumes=[KEYS, WFT, FINDC, SMALLOC, "janet_memalloc_empty (wrap.c) is the real function on CBMC's malloc"], mutants=muts, **T)
 
 for cap, pcap, chain, tier in ((2, 2, 3, "quick"), (4, 2, 3, "quick"), (8, 4, 3, "thorough")):
     k = KOF[cap]
     unit("tab.get.cap%d" % cap,
          "janet_table_get: returns the value of the first table along the prototype chain whose map holds the key (the table's own entry wins), nil if none does or for a nil / NaN key; nothing modified",
-         "h_table_get", tier=tier, timeout=300 if tier == "quick" else 600,
+         "h_table_get", tier=tier, timeout=300 if tier == "quick" else 600, cbmc=CAD,
          bound=tbound(cap, "; acyclic prototype chains of 1..%d tables, prototypes of capacity %d (the depth cut-off JANET_MAX_PROTO_DEPTH = 200 is not reached)" % (chain, pcap)),
          defines=["-DTAB_CAP=%d" % cap, "-DTAB_K=%d" % k, "-DTAB_PCAP=%d" % pcap, "-DTAB_CHAIN=%d" % chain], unwind=max(cap, k + 1) + 2,
          functions=["janet_table_get", "janet_table_find"], assumes=[KEYS, WFT, FINDC], mutants=GET_M, **T)
+
+# ------------------------------------------------------------------ (C) janet_dictionary_next
+NX = dict(src=["util.c"], link=["wrap.c"], harness=["tab_next.c"], defines=["-DTAB_MAXCAP=8"], unwind=11, functions=["janet_dictionary_next"])
+NXB = "capacity 1..8, ALL bucket contents (arbitrary key and value words), every cursor position"
+unit("tab.next.step",
+     "janet_dictionary_next returns the first bucket strictly after the cursor whose key is not nil (from bucket 0 for a NULL cursor), NULL iff there is none; reads inside the array only, writes nothing",
+     "h_dict_next_step", bound=NXB, assumes=["cursor is NULL or the address of a bucket of the array (what the previous call returned)"],
+     mutants=[mut("cursor-not-advanced", "util.c", "kv = (kv == NULL) ? kvs : kv + 1;", "kv = (kv == NULL) ? kvs : kv;", "FIRST live bucket strictly after"),
+              mut("walks-one-past-end", "util.c", "    while (kv < end) {\n        if (!janet_checktype(kv->key, JANET_NIL))\n            return kv;", "    while (kv <= end) {\n        if (!janet_checktype(kv->key, JANET_NIL))\n            return kv;", "pointer_dereference|points into the bucket array|returns NULL only")], **NX)
+unit("tab.next.iter",
+     "iterating with janet_dictionary_next from NULL until NULL visits every live bucket exactly once, in index order, visits no other bucket, and takes exactly as many steps as there are live buckets",
+     "h_dict_next_iter", bound=NXB,
+     mutants=[mut("first-bucket-skipped", "util.c", "kv = (kv == NULL) ? kvs : kv + 1;", "kv = (kv == NULL) ? kvs + 1 : kv + 1;", "exactly once|number of visited|pointer_dereference"),
+              mut("returns-nil-key-buckets", "util.c", "    while (kv < end) {\n        if (!janet_checktype(kv->key, JANET_NIL))\n            return kv;", "    while (kv < end) {\n        if (!janet_checktype(kv->value, JANET_NIL))\n            return kv;", "live buckets only|exactly once|number of visited")], **NX)
 
 json.dump({"defaults": {"props": ["C04"], "mode": "plain", "timeout": 300, "checks": CHECKS}, "units": units},
           open(os.path.join(V, "units", "C04_tab.json"), "w"), indent=1)
